@@ -40,3 +40,16 @@ Theorem C09_pending_is_work_conserving :
   q_cap (ad_q a') <= q_len (ad_q a') \/ ad_up a' = None \/ last_up (log w') = Some UAPend.
 Proof. exact adapter_pending_is_work_conserving. Qed.
 Print Assumptions C09_pending_is_work_conserving.
+
+(** the same for for_each_concurrent: whenever its poll returns Pending, n futures are running
+    (the limit 0, documented as "no limit", counts as saturated: finding F8), or upstream has
+    ended, or upstream's last answer in this call was Pending — the inner loop never gives up
+    with a free slot and an upstream that might have an item *)
+Theorem C09_for_each_pending_is_work_conserving :
+  forall (P : params) (own : nat -> nat) (a : fec) (t : nat) (w : world),
+  winv own None w -> fub_ok own (fe_q a) -> up_live (fe_up a) ->
+  let '(a', r, w') := fec_poll P a t w in
+  r = RetPending ->
+  fub_cap (fe_q a') <= fub_len (fe_q a') \/ fe_up a' = None \/ last_up (log w') = Some UAPend.
+Proof. exact fec_pending_is_work_conserving. Qed.
+Print Assumptions C09_for_each_pending_is_work_conserving.
